@@ -151,12 +151,51 @@ Definition default (a : attr) : ext * tag :=
   | AFixed => (Fin 0, GBool)
   end.
 
+Fixpoint repeat_ {A} (x : A) (n : nat) : list A :=
+  match n with O => [] | S m => x :: repeat_ x m end.
+
+Fixpoint zipw {A} (f : A -> A -> A) (l m : list A) : list A :=
+  match l, m with x :: l', y :: m' => f x y :: zipw f l' m' | _, _ => [] end.
+
+(* vector / matrix valued attribute expressions (start = pa, 2*pa, 3*P, P + fill(p,2,3)); all
+   arrays in veccat (column-major) order.  VList es: an array parameter (es = its entries of the
+   parameter vector) or, after substitution, arbitrary element expressions *)
+Inductive vexp :=
+| VList (es : list aexp)
+| VFill (e : aexp) (n : nat)          (* fill(e, ...) with n elements *)
+| VScale (c : Qc) (v : vexp)          (* c * v, element-wise *)
+| VNeg (v : vexp)
+| VAdd (v w : vexp).
+
+(* element expressions: what CasADi's element-wise operations build, entry by entry *)
+Fixpoint velems (v : vexp) : list aexp :=
+  match v with
+  | VList es => es
+  | VFill e n => repeat_ e n
+  | VScale c v => map (Mul (Cst c)) (velems v)
+  | VNeg v => map Neg (velems v)
+  | VAdd v w => zipw Add (velems v) (velems w)
+  end.
+
+(* SPEC side: the value of the vector expression as a vector *)
+Fixpoint veval (p : list Qc) (v : vexp) : list Qc :=
+  match v with
+  | VList es => map (eval p) es
+  | VFill e n => repeat_ (eval p e) n
+  | VScale c v => map (Qcmult c) (veval p v)
+  | VNeg v => map Qcopp (veval p v)
+  | VAdd v w => zipw Qcplus (veval p v) (veval p w)
+  end.
+
 Inductive elem := ELit (l : lit) | EExp (e : aexp).
 Inductive decl :=
 | DNone                       (* attribute not given *)
 | DLit (l : lit)              (* scalar literal (also `each c`) *)
 | DExp (e : aexp)             (* scalar parameter expression, symbolic MX (also `each e`) *)
-| DElems (es : list elem).    (* array: element-wise literals / expressions *)
+| DElems (es : list elem)     (* array literal: element-wise literals / expressions *)
+| DVec (v : vexp)             (* array-valued expression, one entry per element *)
+| DVecEl (v : vexp) (k : nat).  (* _expand_vectors (model.py:355-375): element k (veccat index of
+                                   `ind`) of an array-valued expression, on the expanded scalar *)
 
 Record var := Var { vt : vtype; vsize : nat; vdecl : attr -> decl }.
 
@@ -174,9 +213,6 @@ Definition eff_decl (v : var) (a : attr) : decl :=
 (* ---------- cells of the metadata matrix ---------- *)
 Inductive cell := CLit (x : ext) | CExp (e : aexp).
 
-Fixpoint repeat_ {A} (x : A) (n : nat) : list A :=
-  match n with O => [] | S m => x :: repeat_ x m end.
-
 (* a list literal is not coerced (it is neither float nor int): values as written *)
 Definition elem_cell (el : elem) : cell :=
   match el with ELit l => CLit (Fin (lit_val l)) | EExp e => CExp e end.
@@ -189,6 +225,11 @@ Definition column (v : var) (a : attr) : option (list cell) :=
   | DLit l => Some (repeat_ (CLit (Fin (lit_val (coerce (vt v) l)))) (vsize v))
   | DExp e => Some (repeat_ (CExp e) (vsize v))
   | DElems es => if Nat.eqb (length es) (vsize v) then Some (map elem_cell es) else None
+  | DVec w => if Nat.eqb (length (velems w)) (vsize v) then Some (map CExp (velems w)) else None
+  | DVecEl w k => match nth_error (velems w) k with
+                  | Some e => Some (repeat_ (CExp e) (vsize v))
+                  | None => None
+                  end
   end.
 
 (* Python type of the attribute object on the Variable *)
@@ -196,7 +237,7 @@ Definition attr_tag (v : var) (a : attr) : tag :=
   match eff_decl v a with
   | DNone => snd (default a)
   | DLit l => lit_tag (coerce (vt v) l)
-  | DExp _ => GMX
+  | DExp _ | DVec _ | DVecEl _ _ => GMX
   | DElems _ => GList
   end.
 
@@ -274,6 +315,8 @@ Definition spec_entry (p : list Qc) (v : var) (a : attr) (k : nat) : ext :=
   | DLit l => Fin (lit_val l)
   | DExp e => Fin (eval p e)
   | DElems es => match nth_error es k with Some el => spec_elem p el | None => NaN end
+  | DVec w => match nth_error (veval p w) k with Some q => Fin q | None => NaN end
+  | DVecEl w j => match nth_error (veval p w) j with Some q => Fin q | None => NaN end
   end.
 
 Definition spec_rows (p : list Qc) (v : var) : list (list ext) :=
@@ -289,9 +332,81 @@ Definition decl_wf (v : var) (a : attr) : bool :=
   | DNone | DExp _ => true
   | DLit l => well_typed (vt v) l
   | DElems es => Nat.eqb (length es) (vsize v)
+  | DVec w => Nat.eqb (length (velems w)) (vsize v)
+  | DVecEl w j => Nat.ltb j (length (velems w))
   end.
 Definition var_wf (v : var) : bool := forallb (decl_wf v) attr_order.
 Definition model_wf (M : model) : bool := forallb (forallb var_wf) M.
+
+(* ---------- _substitute_metadata (model.py:239-267) ----------
+   simplify()'s replace_parameter_values / replace_parameter_expressions / resolve passes eliminate
+   parameters: entry i of the OLD parameter vector becomes the expression nth i sg over the NEW
+   parameter vector (Par j for a surviving parameter, a constant or the parameter's declared
+   expression for an eliminated one), in every symbolic attribute of every variable. *)
+Fixpoint subst (sg : list aexp) (e : aexp) : aexp :=
+  match e with
+  | Cst c => Cst c
+  | Par i => nth i sg (Cst 0)
+  | Add a b => Add (subst sg a) (subst sg b)
+  | Sub a b => Sub (subst sg a) (subst sg b)
+  | Mul a b => Mul (subst sg a) (subst sg b)
+  | Div a b => Div (subst sg a) (subst sg b)
+  | Neg a => Neg (subst sg a)
+  | Pow a n => Pow (subst sg a) n
+  end.
+
+Fixpoint vsubst (sg : list aexp) (v : vexp) : vexp :=
+  match v with
+  | VList es => VList (map (subst sg) es)
+  | VFill e n => VFill (subst sg e) n
+  | VScale c v => VScale c (vsubst sg v)
+  | VNeg v => VNeg (vsubst sg v)
+  | VAdd v w => VAdd (vsubst sg v) (vsubst sg w)
+  end.
+
+Definition subst_elem (sg : list aexp) (el : elem) : elem :=
+  match el with ELit l => ELit l | EExp e => EExp (subst sg e) end.
+
+(* l.245-246: only symbolic, non-constant attributes are touched; l.255-265: a scalar result that
+   became constant is turned into a Python number of the variable's type (int(float(v)) truncates;
+   Boolean variables keep the constant MX).  Array-valued attributes stay MX. *)
+Definition subst_decl (t : vtype) (sg : list aexp) (d : decl) : decl :=
+  match d with
+  | DNone => DNone
+  | DLit l => DLit l
+  | DExp e =>
+      if pfree e then DExp e else
+      let e' := subst sg e in
+      if pfree e' then match t with TBool => DExp e' | _ => DLit (coerce t (LReal (v0 e'))) end
+      else DExp e'
+  | DElems es => DElems (map (subst_elem sg) es)
+  | DVec w => DVec (vsubst sg w)
+  | DVecEl w k => DVecEl (vsubst sg w) k
+  end.
+
+Definition subst_var (sg : list aexp) (v : var) : var :=
+  Var (vt v) (vsize v) (fun a => subst_decl (vt v) sg (vdecl v a)).
+Definition apply_subst (sg : list aexp) (M : model) : model := map (map (subst_var sg)) M.
+
+(* a sequence of simplify steps; which parameters each step eliminates, and by what, is given *)
+Fixpoint run (steps : list (list aexp)) (M : model) : model :=
+  match steps with [] => M | sg :: r => run r (apply_subst sg M) end.
+(* the ORIGINAL parameter valuation that corresponds to the final one *)
+Fixpoint env_back (steps : list (list aexp)) (p : list Qc) : list Qc :=
+  match steps with [] => p | sg :: r => map (eval (env_back r p)) sg end.
+
+(* hypothesis of the substitution theorems: an Integer attribute that becomes constant has an
+   integral value (int() would truncate otherwise) *)
+Definition is_int (q : Qc) : bool := Pos.eqb (Qden (this q)) 1.
+Definition int_ok (sg : list aexp) (v : var) (a : attr) : bool :=
+  match vdecl v a, vt v with
+  | DExp e, TInt => if negb (pfree e) && pfree (subst sg e) then is_int (v0 (subst sg e)) else true
+  | _, _ => true
+  end.
+Definition subst_ok (sg : list aexp) (M : model) : bool :=
+  forallb (forallb (fun v => forallb (int_ok sg v) attr_order)) M.
+Fixpoint steps_ok (steps : list (list aexp)) (M : model) : bool :=
+  match steps with [] => true | sg :: r => subst_ok sg M && steps_ok r (apply_subst sg M) end.
 
 (* ---------- correspondence ---------- *)
 Definition qabs (q : Qc) : Qc := Q2Qc (Qabs (this q)).
@@ -334,7 +449,8 @@ Definition tag_row_ok (v : var) (o : vtype * list (option tag)) : bool :=
 Definition point := (list Qc * list (list (list ext)) * list (list (list ext)))%type.
 
 Record case := Case {
-  c_model : model;
+  c_model : model;                                (* declared attributes, ORIGINAL parameter indexing *)
+  c_steps : list (list aexp);                     (* parameter eliminations of the simplify steps so far *)
   c_rebuilt : bool;                               (* observed branch (false when unknown) *)
   c_tags : list (list (vtype * list (option tag)));
   c_points : list point }.
@@ -344,9 +460,11 @@ Definition check_point (M : model) (rb : bool) (pt : point) : bool :=
   safe_ok p M && mats_close om (metadata rb M p) && mats_close ov (var_attrs M p).
 
 Definition check_case (c : case) : bool :=
-  implb (c_rebuilt c) (affine_ok (c_model c)) &&
-  all2 (all2 tag_row_ok) (c_model c) (c_tags c) &&
-  forallb (check_point (c_model c) (c_rebuilt c)) (c_points c).
+  let M := run (c_steps c) (c_model c) in
+  steps_ok (c_steps c) (c_model c) &&
+  implb (c_rebuilt c) (affine_ok M) &&
+  all2 (all2 tag_row_ok) M (c_tags c) &&
+  forallb (check_point M (c_rebuilt c)) (c_points c).
 
 (* ---------- tie side condition: tables regenerated from the sources (run/C13/Gen.v) ---------- *)
 Definition ext_eqb (x y : ext) : bool :=
